@@ -126,13 +126,14 @@ def run(ctx):
                       file=pk.relpath, line=xrf.line if xrf else 1)
     # parts ⊆ reached names: the part dict is built by iterating self._xml_rels
     al = aliases(pf.node)
-    dc = [n for n in ast.walk(pf.node) if isinstance(n, ast.DictComp)]
+    from checks.c01 import part_construction
+    from sa.itersrc import source_of
+
+    pc = part_construction(pf)
     src_ok = False
-    if dc:
-        it = dc[0].generators[0].iter
-        if isinstance(it, ast.GeneratorExp):
-            it = it.generators[0].iter
-        src_ok = norm(it, al) == "self._xml_rels"
+    if pc is not None:
+        src = source_of(pf.node, pc[2])
+        src_ok = norm(ast.parse(src["terminal"], mode="eval").body, al) == "self._xml_rels" if src["terminal"] else False
     ld = ldr.methods.get("_load")
     use_ok = False
     if ld is not None:
@@ -297,42 +298,71 @@ def run(ctx):
         pres = next((f for f in prog.all_functions() if f.module is api and f.name == "Presentation"), None)
     if pres is None:
         raise AnalysisError("anchor vanished: pptx.api.Presentation")
-    body = [st for st in pres.node.body]
-    idx_guard = idx_ret = None
-    exc_t = None
-    var = None
-    for i, st in enumerate(body):
-        if isinstance(st, ast.If) and isinstance(st.test, ast.UnaryOp) and isinstance(st.test.op, ast.Not) and isinstance(st.test.operand, ast.Call) \
-                and dotted(st.test.operand.func) == "_is_pptx_package":
-            idx_guard = i
-            var = dotted(st.test.operand.args[0])
-            r = [x for x in st.body if isinstance(x, ast.Raise)]
-            exc_t = dotted(r[0].exc.func) if r and isinstance(r[0].exc, ast.Call) else None
-        if isinstance(st, ast.Return) and idx_ret is None:
-            idx_ret = i
-    uses_before = False
-    if idx_guard is not None and var:
-        for st in body[:idx_guard]:
-            for n in ast.walk(st):
-                if isinstance(n, ast.Attribute) and dotted(n.value) == var:
-                    uses_before = True
+    from sa import paths as P_
+    from sa.desugar import desugar
+
+    dpres = desugar(pres.node)
+    al_p = P_.aliases(dpres)
+    pths = [p for p in P_.enum_paths(dpres.body)]
+    probs = []
+    decided = 0
+    for pth in pths:
+        fs = P_.facts(pth, None, al_p)
+        verdict = [a for a in fs if a[0] == "truthy" and a[1].startswith("_is_pptx_package(")]
+        if not verdict:
+            if pth.end in ("return",):
+                probs.append("a path returns without asking _is_pptx_package (line %d)" % pth.end_node.lineno)
+            continue
+        decided += 1
+        part_src = verdict[0][1][len("_is_pptx_package("):-1]
+        if verdict[0][2] is False:
+            exc = None
+            if pth.end == "raise" and pth.end_node.exc is not None:
+                e = pth.end_node.exc
+                exc = dotted(e.func) if isinstance(e, ast.Call) else dotted(e)
+            if exc != "ValueError":
+                probs.append("a main part that is not a presentation ends in %s, not ValueError" % (exc or pth.end))
+            for ev in pth.events:
+                node = ev[1] if ev[0] in ("stmt",) else None
+                if node is not None:
+                    for x in ast.walk(node):
+                        if isinstance(x, ast.Attribute) and P_.norm(x.value, al_p) == part_src and x.attr not in ("content_type",):
+                            probs.append("the part is used (.%s) although it is not a presentation" % x.attr)
+        else:
+            if pth.end != "return":
+                probs.append("a presentation main part does not lead to a return")
+    # the check must come before any use of the part on every path
+    for pth in pths:
+        seen_check = False
+        for ev in pth.events:
+            node = ev[1] if ev[0] in ("stmt", "cond") else None
+            if node is None:
+                continue
+            if any(isinstance(x, ast.Call) and dotted(x.func) == "_is_pptx_package" for x in ast.walk(node)):
+                seen_check = True
+                continue
+            if not seen_check and any(isinstance(x, ast.Attribute) and x.attr in ("presentation",) for x in ast.walk(node)):
+                probs.append("the part is used before _is_pptx_package is asked")
     isp = next((f for f in prog.all_functions() if f.module is api and f.name == "_is_pptx_package"), None)
     types_ok = False
     if isp is not None:
-        for n in ast.walk(isp.node):
-            if isinstance(n, ast.Assign) and isinstance(n.value, ast.Tuple):
-                vals = prog.const(n.value, api)
-                types_ok = isinstance(vals, tuple) and len(vals) >= 1 and all(isinstance(x, str) and "presentation" in x and x.endswith("main+xml") for x in vals)
+        env = {}
+        for n in walk_own(isp.node):
+            if isinstance(n, ast.Assign) and isinstance(n.targets[0], ast.Name):
+                env[n.targets[0].id] = prog.const(n.value, api, env)
         rets = [n.value for n in ast.walk(isp.node) if isinstance(n, ast.Return)]
-        types_ok = types_ok and bool(rets) and isinstance(rets[0], ast.Compare) and isinstance(rets[0].ops[0], ast.In) \
-            and dotted(rets[0].left).endswith(".content_type")
-    if idx_guard is not None and idx_ret is not None and idx_guard < idx_ret and exc_t == "ValueError" and not uses_before and types_ok:
-        ctx.ok("R16.2", "api.Presentation", sample={"refusal": "ValueError when the main part's content type is not a presentation main type",
-                                                    "before": "any use of the part"})
-    else:
-        ctx.violation("R16.2", "api.Presentation", "a non-presentation main part is not refused with ValueError before it is used "
-                      "(guard@%s return@%s raises=%s used-before=%s types=%s)" % (idx_guard, idx_ret, exc_t, uses_before, types_ok),
+        if rets and isinstance(rets[0], ast.Compare) and isinstance(rets[0].ops[0], ast.In) and (dotted(rets[0].left) or "").endswith(".content_type"):
+            vals = prog.const(rets[0].comparators[0], api, env)
+            types_ok = isinstance(vals, (tuple, list, frozenset, set)) and len(vals) >= 1 and all(
+                isinstance(x, str) and "presentation" in x and x.endswith("main+xml") for x in vals)
+    if not decided:
+        ctx.error("pptx.api.Presentation", "no path asks _is_pptx_package")
+    elif probs or not types_ok:
+        ctx.violation("R16.2", "api.Presentation", "; ".join(sorted(set(probs))) or "the accepted main content types are not the presentation main types",
                       file=pres.file, line=pres.line)
+    else:
+        ctx.ok("R16.2", "api.Presentation", sample={"refusal": "ValueError when the main part's content type is not a presentation main type",
+                                                    "before": "any use of the part", "paths": decided})
 
     # -- R16.3 -------------------------------------------------------------------------------------------
     ctx.rule("R16.3", "unknown content types load as generic parts; content-type lookup ignores case")
